@@ -9,6 +9,7 @@ import (
 	"os"
 	"runtime"
 	"runtime/debug"
+	"runtime/metrics"
 	"sort"
 	"strings"
 	"syscall"
@@ -166,16 +167,22 @@ type ExplicitResult struct {
 
 // ---------------------------------------------------------------- the worker
 
+type siteMemo struct {
+	site string
+	n    int
+}
+
 type workerState struct {
-	es       []*entry
-	shm      []byte
-	out      *bufio.Writer
-	fams     map[string]*family
-	ctx      map[bool]*famCtx
-	beat     uint64
-	unpack   *entry
-	ms       runtime.MemStats
-	thorough bool
+	siteCache map[int]siteMemo
+	es        []*entry
+	shm       []byte
+	out       *bufio.Writer
+	fams      map[string]*family
+	ctx       map[bool]*famCtx
+	beat      uint64
+	unpack    *entry
+	ms        runtime.MemStats
+	thorough  bool
 }
 
 func (w *workerState) put(word int, v uint64) { binary.LittleEndian.PutUint64(w.shm[word*8:], v) }
@@ -365,6 +372,18 @@ func contains(s, sub string) bool {
 	return false
 }
 
+var allocSample = []metrics.Sample{{Name: "/gc/heap/allocs:bytes"}}
+
+// heapAllocs: cumulative bytes allocated, cheap (no stop-the-world) and exact
+// for large objects, which is all it is used for.
+func heapAllocs() uint64 {
+	metrics.Read(allocSample)
+	if allocSample[0].Value.Kind() != metrics.KindUint64 {
+		return 0
+	}
+	return allocSample[0].Value.Uint64()
+}
+
 type pairRun struct {
 	ci   int // index into the batch
 	ent  int
@@ -438,6 +457,7 @@ func (w *workerState) runJob(j *Job) error {
 		}
 		// ---- pass 1: run everything, one measurement around the batch
 		m0 := w.totalAlloc()
+		heap0 := heapAllocs()
 		for i := range runs {
 			r := &runs[i]
 			if r.skip {
@@ -448,6 +468,17 @@ func (w *workerState) runJob(j *Job) error {
 			pkt := c.pkt(e)
 			w.announce(j.Seq, c.idx, r.ent, 1, len(pkt))
 			r.res = execEntry(e, pkt)
+			if fam.bigAlloc {
+				// give a large allocation back at once: what the next case can allocate under the
+				// address-space limit must not depend on what this one left behind
+				if h := heapAllocs(); h-heap0 > 64<<20 {
+					w.announce(j.Seq, c.idx, -1, 0, 0)
+					debug.FreeOSMemory()
+					heap0 = heapAllocs()
+				} else {
+					heap0 = h
+				}
+			}
 		}
 		m1 := w.totalAlloc()
 		w.announce(j.Seq, batch[len(batch)-1].idx, -1, 0, 0)
@@ -496,6 +527,7 @@ func (w *workerState) runJob(j *Job) error {
 			w.announce(j.Seq, c.idx, r.ent, 2, len(pkt))
 			var d uint64
 			site := ""
+			_ = site
 			a0 := w.totalAlloc()
 			execEntry(e, pkt)
 			d = w.totalAlloc() - a0
@@ -507,9 +539,17 @@ func (w *workerState) runJob(j *Job) error {
 			}
 			if d > budget(len(pkt)) {
 				sum.AllocViol++
-				if site == "" {
+				if k := w.siteCache[r.ent]; k.n >= 3 {
+					site = k.site // three profiled runs of this entry in a row named the same site: not profiled again
+				} else {
 					w.announce(j.Seq, c.idx, r.ent, 3, len(pkt))
 					site = w.allocSite(e, pkt)
+					if k.site == site {
+						k.n++
+					} else {
+						k = siteMemo{site, 1}
+					}
+					w.siteCache[r.ent] = k
 				}
 				sig := fmt.Sprintf("alloc-amplification:%s:%s", e.class, site)
 				sum.addViol(&Viol{Sig: sig, Rule: "alloc-amplification", Entry: e.name, Family: fam.name, Idx: c.idx, Label: c.label, Len: len(pkt), InLen: len(c.input), InputHex: hexIfSmall(c.input),
@@ -595,7 +635,7 @@ func (w *workerState) runExplicit(j *Job) error {
 
 func workerMain(shmPath string) {
 	in := bufio.NewReaderSize(os.NewFile(3, "commands"), 1<<20)
-	w := &workerState{out: bufio.NewWriterSize(os.NewFile(4, "results"), 1<<16), fams: map[string]*family{}}
+	w := &workerState{out: bufio.NewWriterSize(os.NewFile(4, "results"), 1<<16), fams: map[string]*family{}, siteCache: map[int]siteMemo{}}
 	f, err := os.OpenFile(shmPath, os.O_RDWR, 0)
 	if err == nil {
 		w.shm, err = syscall.Mmap(int(f.Fd()), 0, shmWords*8, syscall.PROT_READ|syscall.PROT_WRITE, syscall.MAP_SHARED)
